@@ -522,8 +522,10 @@ func runLifecycleBehaviour(lg *lcLog, b lcBehaviour, scratch string) {
 			cancelled = true
 			ev["start"] = waitClosed(startRet, 5*time.Second)
 			ev["hub"] = waitClosed(hubRet, 2*time.Second)
-			ev["scan"] = waitClosed(scanRet, sleep+2*time.Second)
-			ev["doscan"] = waitClosed(doscanRet, sleep+2*time.Second)
+			// the scanner waits in selects on the context: it stops at once, also in the middle of its pause between two
+			// mailboxes, however long that pause is configured
+			ev["scan"] = waitClosed(scanRet, sleep/4+time.Second)
+			ev["doscan"] = waitClosed(doscanRet, sleep/4+time.Second)
 		case "drain":
 			if drainCalled {
 				ev["a"] = "harness-error"
